@@ -125,7 +125,7 @@ pub const LAST_NS: [u64; 5] = [2, 3, 5, 10, 100];
 
 pub fn build_chain(p: &ChainParams) -> Chain {
     let epochs = gen_epochs(p.seed, p.n_epochs.max(1) as usize, p.maxlen.max(1) as u64, 20);
-    let txgen = TxGen { density: p.density as u64, max_txs: 3, typed: p.typed as u64, same_block: p.same_block as u64, cellbase_universe: p.cellbase_universe };
+    let txgen = TxGen { density: p.density as u64, max_txs: 3, typed: p.typed as u64, same_block: p.same_block as u64, cellbase_universe: p.cellbase_universe, gate: false };
     let mut chain = Chain::new(epochs, START_TIME, p.seed, Pow::Eaglesong, txgen);
     chain.mine_n(p.len as u64);
     chain
@@ -143,6 +143,10 @@ pub fn build_cfg(n: &NetParams) -> Cfg {
 }
 
 pub fn spec_script(s: &RegSpec) -> (ckb_types::packed::Script, SType) {
+    if s.script == 200 {
+        // C18 only (never generated by `reg_spec`): the witness-gate lock
+        return (crate::lcv::sim::chain::gate_lock(), SType::Lock);
+    }
     if s.script < N_LOCKS as u8 {
         (universe_lock(s.script as usize), SType::Lock)
     } else {
